@@ -1,5 +1,10 @@
 #[cfg(not(target_arch = "wasm32"))]
-use std::time::{Duration, Instant};
+use std::time::Duration;
+#[cfg(all(not(target_arch = "wasm32"), not(deadpool_verif)))]
+use std::time::Instant;
+// The simulator owns the clock: instants are read from tokio's (paused) clock.
+#[cfg(all(not(target_arch = "wasm32"), deadpool_verif))]
+use tokio::time::Instant;
 
 /// Statistics regarding an object returned by the pool
 #[derive(Clone, Copy, Debug)]
